@@ -21,6 +21,8 @@ SHRINK_LISTS = ("ops",)
 WATCH_FILES = ("ak/color.py", "ak/ppobj.py", "ak/hdoc.py", "ak/ghist.py")
 REQUIRED_PROBES = ("deliveries", "late_resolutions", "explicit_wins", "checks", "global_checks", "synced_checks")
 
+REAL_VS_STUB = {'real': ['ak.color (parser, incremental resolution, palettes, global/synced palettes), component palettes of ak.ppobj / ak.hdoc / ak.ghist'], 'stub': ['nothing of the package; synthetic component classes are created with type(); process-global state -> fresh forked process per run; reference report in a pristine forked process']}
+
 RULE = ("each run = one acyclic description set (explicit nested config overriding built-in/component/user ids, 1-4 "
         "synthetic components with PARENT_PALETTES, real components, user ids; every section form, '-', '', names, "
         "ints, rgb, greys, modifiers and no_ modifiers) delivered under one seeded schedule (component first uses in "
